@@ -44,8 +44,17 @@ type Sched struct {
 	AdoptUnknown bool
 	// Leaked counts adopted goroutines that were still alive (parked on
 	// something unhooked) when Run returned.
-	Leaked      int
-	nAdopted    int
+	Leaked   int
+	nAdopted int
+	// OnStuck, when set, is asked once no thread is enabled although some are
+	// still alive, just before the execution is declared deadlocked (called
+	// without the scheduler's lock, on whichever goroutine noticed). The harness
+	// may then make progress possible again (Unblock a resource that only its
+	// environment model can release - an operation of the outside world that has
+	// taken longer than everything else that could happen) and return true: the
+	// choice of the next thread is made anew. Returning false (the default
+	// without a hook) leaves the deadlock verdict as it is.
+	OnStuck     func() bool
 	monitorGoid int64
 }
 
@@ -560,6 +569,13 @@ again:
 				// unhooked goroutine might still release them the chance to do so
 				s.mu.Unlock()
 				if s.waitExtRejoin() {
+					goto again
+				}
+				s.mu.Lock()
+			}
+			if hook := s.OnStuck; hook != nil {
+				s.mu.Unlock()
+				if hook() {
 					goto again
 				}
 				s.mu.Lock()
